@@ -1,21 +1,32 @@
 (* C12 — dependency satisfaction is decided per Debian semantics.
-   Statements only; proofs in proofs/SatP.v and proofs/DebVersionP.v.
+   Statements only; proofs in proofs/SatP.v, proofs/SatTextP.v and proofs/DebVersionP.v.
 
    Quantifier: every field (a list of entries, each a list of alternatives; no bound on either;
    all five operators), every lookup value of each of the three forms, every version type V
    with a comparison that is total on a stated domain.  [field] below is the typed view the two
    evaluators look at: (name, optional (operator, version)) per alternative.
 
-   Three layers:
+   Which lookup form can be passed where (Sat.v says it in its types): the field/entry-level
+   evaluators — lossy::Relations::satisfied_by, lossless Relations::satisfied_by and
+   Entry::satisfied_by — take `impl VersionLookup + Copy`, which of the three implementations only
+   a closure is; they are functions of [g : str -> option V] here.  HashMap<String, Version> and
+   (String, Version) can only be given to lossy::Relation::satisfied_by, one alternative at a
+   time; [by_relation] is the all/any nesting a caller writes around it.
+
+   Layers:
    (A) for any version type: both evaluators = the Policy decision table; they agree; only the
-       induced lookup function matters; trees built by the constructors and trees whose
-       accessors do not panic have that typed view;
+       induced lookup function matters; trees built by the constructors / set_version (the
+       definitions of the C11 cone, code as of /repo 5517d72) have the field as typed view;
+   (A') the parsed path, from the C10 cone: every text read without error has as typed view what
+       the accessors report (for the well-formed fields: the field as written), or its tree is in
+       one of the two finding classes;
    (B) the Debian ordering (DebVersion.vcmp, the dpkg algorithm) is a total preorder;
    (C) debversion 0.4.4 (the crate the code links) equals (B) when no digit run exceeds
        i32::MAX, so (A) applies to it on that domain; beyond it the crate panics
        (finding c12-debversion-i32-digit-run, witness below). *)
 From V.model Require Import Base RelLex RelParse DebVersion Sat.
-From V.proofs Require Import DebVersionP SatP.
+From V.model Require RelAcc RelGrammar.
+From V.proofs Require Import DebVersionP SatP SatTextP.
 From Coq Require Import String.
 Local Open Scope string_scope.
 
@@ -28,19 +39,19 @@ Theorem C12_spec :
   forall (V : Type) (vcmp : V -> V -> res comparison) (vparse : str -> option V)
          (cmp : V -> V -> comparison) (Vok : V -> Prop),
   (forall a b, Vok a -> Vok b -> vcmp a b = Ok (cmp a b)) ->
-  forall (t : rtree) (f : list (list (rel V))) (pv : lookup V),
-  tree_field V vparse t = Ok f -> field_dom V Vok f -> lookup_dom V Vok pv ->
-  ll_relations_satisfied_by V vcmp vparse t pv = Ok (satisfied_spec cmp (lookup_version pv) f) /\
-  lossy_relations_satisfied_by V vcmp f pv = Ok (satisfied_spec cmp (lookup_version pv) f).
+  forall (t : rtree) (f : list (list (rel V))) (g : str -> option V),
+  tree_field V vparse t = Ok f -> field_dom V Vok f -> (forall n v, g n = Some v -> Vok v) ->
+  ll_relations_satisfied_by V vcmp vparse t g = Ok (satisfied_spec cmp g f) /\
+  lossy_relations_satisfied_by V vcmp f g = Ok (satisfied_spec cmp g f).
 Proof. exact c12_spec. Qed.
 Check C12_spec :
   forall (V : Type) (vcmp : V -> V -> res comparison) (vparse : str -> option V)
          (cmp : V -> V -> comparison) (Vok : V -> Prop),
   (forall a b, Vok a -> Vok b -> vcmp a b = Ok (cmp a b)) ->
-  forall (t : rtree) (f : list (list (rel V))) (pv : lookup V),
-  tree_field V vparse t = Ok f -> field_dom V Vok f -> lookup_dom V Vok pv ->
-  ll_relations_satisfied_by V vcmp vparse t pv = Ok (satisfied_spec cmp (lookup_version pv) f) /\
-  lossy_relations_satisfied_by V vcmp f pv = Ok (satisfied_spec cmp (lookup_version pv) f).
+  forall (t : rtree) (f : list (list (rel V))) (g : str -> option V),
+  tree_field V vparse t = Ok f -> field_dom V Vok f -> (forall n v, g n = Some v -> Vok v) ->
+  ll_relations_satisfied_by V vcmp vparse t g = Ok (satisfied_spec cmp g f) /\
+  lossy_relations_satisfied_by V vcmp f g = Ok (satisfied_spec cmp g f).
 Print Assumptions C12_spec.
 
 (* the decision table, in the words of the property: << is Lt, <= is Lt or Eq, = is Eq,
@@ -76,124 +87,121 @@ Print Assumptions C12_table_in_words.
    panics: same calls in the same order.  No hypothesis on the comparison. *)
 Theorem C12_agree :
   forall (V : Type) (vcmp : V -> V -> res comparison) (vparse : str -> option V)
-         (t : rtree) (f : list (list (rel V))) (pv : lookup V),
+         (t : rtree) (f : list (list (rel V))) (g : str -> option V),
   tree_field V vparse t = Ok f ->
-  ll_relations_satisfied_by V vcmp vparse t pv = lossy_relations_satisfied_by V vcmp f pv.
+  ll_relations_satisfied_by V vcmp vparse t g = lossy_relations_satisfied_by V vcmp f g.
 Proof. exact ll_agree_lossy. Qed.
 Check C12_agree :
   forall (V : Type) (vcmp : V -> V -> res comparison) (vparse : str -> option V)
-         (t : rtree) (f : list (list (rel V))) (pv : lookup V),
+         (t : rtree) (f : list (list (rel V))) (g : str -> option V),
   tree_field V vparse t = Ok f ->
-  ll_relations_satisfied_by V vcmp vparse t pv = lossy_relations_satisfied_by V vcmp f pv.
+  ll_relations_satisfied_by V vcmp vparse t g = lossy_relations_satisfied_by V vcmp f g.
 Print Assumptions C12_agree.
 
-(* Lookup forms: the evaluators see the installed versions only through the induced function;
-   a map filled by inserts induces "last binding wins", a pair induces the one-point function,
-   a closure induces itself. *)
+(* Lookup forms.  The three field/entry-level evaluators take a closure and depend on it
+   pointwise.  lossy::Relation::satisfied_by takes any of the three forms and sees it only
+   through the function it induces; so does the nesting a caller writes around it, which equals
+   the crate's evaluator on the induced closure.  A map filled by inserts induces "last binding
+   wins", a pair the one-point function, a closure itself. *)
 Theorem C12_lookup :
   forall (V : Type) (vcmp : V -> V -> res comparison) (vparse : str -> option V),
-  (forall (t : rtree) (f : list (list (rel V))) (p q : lookup V),
-     (forall n, lookup_version p n = lookup_version q n) ->
-     ll_relations_satisfied_by V vcmp vparse t p = ll_relations_satisfied_by V vcmp vparse t q /\
-     lossy_relations_satisfied_by V vcmp f p = lossy_relations_satisfied_by V vcmp f q) /\
+  (forall (t : rtree) (f : list (list (rel V))) (g h : str -> option V),
+     (forall n, g n = h n) ->
+     ll_relations_satisfied_by V vcmp vparse t g = ll_relations_satisfied_by V vcmp vparse t h /\
+     lossy_relations_satisfied_by V vcmp f g = lossy_relations_satisfied_by V vcmp f h) /\
+  (forall (r : rel V) (pv : lookup V),
+     lossy_relation_satisfied_by V vcmp r pv = lossy_relation_satisfied_by V vcmp r (LFn (lookup_version pv))) /\
+  (forall (f : list (list (rel V))) (pv : lookup V),
+     by_relation V vcmp f pv = lossy_relations_satisfied_by V vcmp f (lookup_version pv)) /\
   (forall (l : list (str * V)) n, lookup_version (LMap (hm_of_list l)) n = find_last l n) /\
-  (forall (m : list (str * V)) n, lookup_version (LMap m) n = lookup_version (LFn (hm_get m)) n) /\
+  (forall (m : list (str * V)) n, lookup_version (LMap m) n = hm_get m n) /\
+  (forall (g : str -> option V) n, lookup_version (LFn g) n = g n) /\
   (forall (k : str) (v : V) n,
-     lookup_version (LPair k v) n = lookup_version (LFn (fun n' => if str_eqb n' k then Some v else None)) n /\
+     lookup_version (LPair k v) n = (if str_eqb n k then Some v else None) /\
      lookup_version (LPair k v) n = lookup_version (LMap (hm_of_list [(k, v)])) n).
 Proof. exact c12_lookup. Qed.
 Check C12_lookup :
   forall (V : Type) (vcmp : V -> V -> res comparison) (vparse : str -> option V),
-  (forall (t : rtree) (f : list (list (rel V))) (p q : lookup V),
-     (forall n, lookup_version p n = lookup_version q n) ->
-     ll_relations_satisfied_by V vcmp vparse t p = ll_relations_satisfied_by V vcmp vparse t q /\
-     lossy_relations_satisfied_by V vcmp f p = lossy_relations_satisfied_by V vcmp f q) /\
+  (forall (t : rtree) (f : list (list (rel V))) (g h : str -> option V),
+     (forall n, g n = h n) ->
+     ll_relations_satisfied_by V vcmp vparse t g = ll_relations_satisfied_by V vcmp vparse t h /\
+     lossy_relations_satisfied_by V vcmp f g = lossy_relations_satisfied_by V vcmp f h) /\
+  (forall (r : rel V) (pv : lookup V),
+     lossy_relation_satisfied_by V vcmp r pv = lossy_relation_satisfied_by V vcmp r (LFn (lookup_version pv))) /\
+  (forall (f : list (list (rel V))) (pv : lookup V),
+     by_relation V vcmp f pv = lossy_relations_satisfied_by V vcmp f (lookup_version pv)) /\
   (forall (l : list (str * V)) n, lookup_version (LMap (hm_of_list l)) n = find_last l n) /\
-  (forall (m : list (str * V)) n, lookup_version (LMap m) n = lookup_version (LFn (hm_get m)) n) /\
+  (forall (m : list (str * V)) n, lookup_version (LMap m) n = hm_get m n) /\
+  (forall (g : str -> option V) n, lookup_version (LFn g) n = g n) /\
   (forall (k : str) (v : V) n,
-     lookup_version (LPair k v) n = lookup_version (LFn (fun n' => if str_eqb n' k then Some v else None)) n /\
+     lookup_version (LPair k v) n = (if str_eqb n k then Some v else None) /\
      lookup_version (LPair k v) n = lookup_version (LMap (hm_of_list [(k, v)])) n).
 Print Assumptions C12_lookup.
 
-(* Trees built by Relation::new / Entry::from / Relations::from have the field they were built
-   from as their typed view (so C12_spec and C12_agree apply to them), provided the versions
-   survive print-then-read. *)
+(* Trees built by Relation::new / Entry::from / Relations::from (RelEdit.relation_new,
+   entry_from_relations fixed — "|" under kind PIPE —, relations_from_entries) have the field they
+   were built from as their typed view (so C12_spec and C12_agree apply to them), provided the
+   versions survive print-then-read. *)
 Theorem C12_constructed :
   forall (V : Type) (vparse : str -> option V) (vshow : V -> str),
   vparse [] = None ->                     (* the empty text is no version *)
   forall (f : list (list (rel V))),
   Forall (Forall (fun r => match r_ver r with Some (_, v) => vparse (vshow v) = Some v | None => True end)) f ->
-  exists t, build_field V vshow f = Ok t /\ tree_field V vparse t = Ok f.
+  tree_field V vparse (build_field V vshow f) = Ok f.
 Proof. exact build_field_view. Qed.
 Check C12_constructed :
   forall (V : Type) (vparse : str -> option V) (vshow : V -> str),
   vparse [] = None ->                     (* the empty text is no version *)
   forall (f : list (list (rel V))),
   Forall (Forall (fun r => match r_ver r with Some (_, v) => vparse (vshow v) = Some v | None => True end)) f ->
-  exists t, build_field V vshow f = Ok t /\ tree_field V vparse t = Ok f.
+  tree_field V vparse (build_field V vshow f) = Ok f.
 Print Assumptions C12_constructed.
 
-(* Relation::set_version(Some((vc, v))) — the code WITH proposed_fixes/C12-set-version-strict-operators.patch —
-   on any relation node that has a name: the name is unchanged and version() reads (vc, v) back;
-   so fields whose alternatives were given their constraint by set_version have the intended
-   typed view and C12_spec / C12_agree apply to them. *)
+(* Relation::set_version(Some((vc, v))) (RelEditTree.set_version_cs: replace the VERSION child, or
+   insert after the architecture qualifier / the name) on ANY relation node that has a name: the
+   name is unchanged and version() reads (vc, v) back.  Hence the fields the harness builds through
+   set_version — from Relation::simple, from Relation::new(.., (=, v)), after set_archqual, and
+   from a parsed "name:any [amd64] <!nocheck>" — have the intended typed view ([parsed_start_ok]:
+   the reader returns a RELATION node with that name; C12_debian_constructed discharges it). *)
 Theorem C12_set_version :
   forall (V : Type) (vparse : str -> option V) (vshow : V -> str),
   vparse [] = None ->
   (forall (r : rtree) n vc v,
      is_node r = true -> first_ident r = Some n -> vparse (vshow v) = Some v ->
-     tree_rel V vparse (set_version_some V vshow (@constraint_tokens) r vc v) = Ok (mk_rel n (Some (vc, v)))) /\
+     tree_rel V vparse (set_version_some V vshow r vc v) = Ok (mk_rel n (Some (vc, v)))) /\
   (forall f : list (list (rel V)),
      Forall (Forall (fun r => match r_ver r with Some (_, v) => vparse (vshow v) = Some v | None => True end)) f ->
-     exists t, sv_field V vshow (@constraint_tokens) f = Ok t /\ tree_field V vparse t = Ok f).
-Proof.
+     Forall (Forall (fun r => parsed_start_ok (r_name r))) f ->
+     exists t, sv_field V vshow f = Ok t /\ tree_field V vparse t = Ok f).
+Proof. 
   intros V vparse vshow He. split.
   - intros r n vc v H1 H2 H3. exact (proj1 (set_version_view V vparse vshow He r n vc v H1 H2 H3)).
   - exact (sv_field_view V vparse vshow He).
-Qed.
+ Qed.
 Check C12_set_version :
   forall (V : Type) (vparse : str -> option V) (vshow : V -> str),
   vparse [] = None ->
   (forall (r : rtree) n vc v,
      is_node r = true -> first_ident r = Some n -> vparse (vshow v) = Some v ->
-     tree_rel V vparse (set_version_some V vshow (@constraint_tokens) r vc v) = Ok (mk_rel n (Some (vc, v)))) /\
+     tree_rel V vparse (set_version_some V vshow r vc v) = Ok (mk_rel n (Some (vc, v)))) /\
   (forall f : list (list (rel V)),
      Forall (Forall (fun r => match r_ver r with Some (_, v) => vparse (vshow v) = Some v | None => True end)) f ->
-     exists t, sv_field V vshow (@constraint_tokens) f = Ok t /\ tree_field V vparse t = Ok f).
+     Forall (Forall (fun r => parsed_start_ok (r_name r))) f ->
+     exists t, sv_field V vshow f = Ok t /\ tree_field V vparse t = Ok f).
 Print Assumptions C12_set_version.
 
-(* ... and the code as it is in /repo today (one character for >> and <<): the relation prints
-   as `a (> 1)` and the lossless evaluator panics where Debian semantics say "satisfied".
-   Replayed on the real code: corpus/c12/set-version-strict.json. *)
-Theorem C12_set_version_before_fix_refuted :
-  exists one two t,
-    parse_version (s2l "1") = Some one /\ parse_version (s2l "2") = Some two /\
-    deb_sv_field_before_fix [[mk_rel (s2l "a") (Some (OpGt, one))]] = Ok t /\
-    text t = s2l "a (> 1)" /\
-    deb_ll_sat t (LPair (s2l "a") two) = Panic 11%N /\
-    deb_spec (lookup_version (LPair (s2l "a") two)) [[mk_rel (s2l "a") (Some (OpGt, one))]] = true.
-Proof. exact deb_set_version_before_fix_refuted. Qed.
-Check C12_set_version_before_fix_refuted :
-  exists one two t,
-    parse_version (s2l "1") = Some one /\ parse_version (s2l "2") = Some two /\
-    deb_sv_field_before_fix [[mk_rel (s2l "a") (Some (OpGt, one))]] = Ok t /\
-    text t = s2l "a (> 1)" /\
-    deb_ll_sat t (LPair (s2l "a") two) = Panic 11%N /\
-    deb_spec (lookup_version (LPair (s2l "a") two)) [[mk_rel (s2l "a") (Some (OpGt, one))]] = true.
-Print Assumptions C12_set_version_before_fix_refuted.
-
-(* Parsed trees: outside the finding class (an operator that is none of the five) every tree
-   whose alternatives have a name and a readable version has a typed view. *)
-Theorem C12_tree_view_outside_known_class :
+(* Any tree: outside the two finding classes (an operator that is none of the five; a version text
+   the version reader rejects) every tree whose alternatives have a name has a typed view. *)
+Theorem C12_tree_view_outside_known_classes :
   forall (V : Type) (vparse : str -> option V) (t : rtree),
-  names_present t -> versions_readable V vparse t -> ~ Known_nonstandard_operator t ->
+  names_present t -> ~ Known_nonstandard_operator t -> ~ Known_unreadable_version V vparse t ->
   exists f, tree_field V vparse t = Ok f.
 Proof. exact tree_field_total. Qed.
-Check C12_tree_view_outside_known_class :
+Check C12_tree_view_outside_known_classes :
   forall (V : Type) (vparse : str -> option V) (t : rtree),
-  names_present t -> versions_readable V vparse t -> ~ Known_nonstandard_operator t ->
+  names_present t -> ~ Known_nonstandard_operator t -> ~ Known_unreadable_version V vparse t ->
   exists f, tree_field V vparse t = Ok f.
-Print Assumptions C12_tree_view_outside_known_class.
+Print Assumptions C12_tree_view_outside_known_classes.
 
 (* What "a total preorder" buys: versions the ordering identifies (1.0 and 1.00, 1.0 and 1.0-0)
    are interchangeable as installed versions; lower bounds survive upgrades, upper bounds
@@ -226,6 +234,73 @@ Check C12_order_consequences :
   (forall c, op_holds OpGe c = negb (op_holds OpLt c) /\ op_holds OpLe c = negb (op_holds OpGt c) /\
              op_holds OpEq c = op_holds OpLe c && op_holds OpGe c).
 Print Assumptions C12_order_consequences.
+
+(* ================================================================== (A') the parsed path *)
+(* On ANY tree, C10's accessor model (RelAcc.racc: versions as Display prints them) and this cone's
+   typed view (versions as values) succeed together, with the same names and operators and with
+   the version read from the printed text; and they panic together, at the same site. *)
+Theorem C12_accessors_typed_view :
+  forall t : rtree,
+  match RelAcc.racc t with
+  | Ok a => tree_field version parse_version t = Ok (typed_content (fst a))
+  | Panic p => tree_field version parse_version t = Panic p
+  | Err _ => False
+  | OutOfFuel => False
+  end.
+Proof. exact racc_tree_field. Qed.
+Check C12_accessors_typed_view :
+  forall t : rtree,
+  match RelAcc.racc t with
+  | Ok a => tree_field version parse_version t = Ok (typed_content (fst a))
+  | Panic p => tree_field version parse_version t = Panic p
+  | Err _ => False
+  | OutOfFuel => False
+  end.
+Print Assumptions C12_accessors_typed_view.
+
+(* EVERY text the reader accepts without error (C10_image: exactly the renderings of the liberal
+   layouts), both settings of allow_substvar: the typed view exists and is what the accessors
+   report, or the tree is in one of the two finding classes.  No hypothesis about the tree. *)
+Theorem C12_parsed_text :
+  forall (s : str) (allow : bool) (t : rtree), parse_relaxed s allow = Ok (t, 0) ->
+  (exists a, RelAcc.racc t = Ok a /\ tree_field version parse_version t = Ok (typed_content (fst a))) \/
+  (RelAcc.racc t = Panic 11%N /\ Known_nonstandard_operator t) \/
+  (RelAcc.racc t = Panic 12%N /\ Known_unreadable_version version parse_version t).
+Proof. exact parsed_text_view. Qed.
+Check C12_parsed_text :
+  forall (s : str) (allow : bool) (t : rtree), parse_relaxed s allow = Ok (t, 0) ->
+  (exists a, RelAcc.racc t = Ok a /\ tree_field version parse_version t = Ok (typed_content (fst a))) \/
+  (RelAcc.racc t = Panic 11%N /\ Known_nonstandard_operator t) \/
+  (RelAcc.racc t = Panic 12%N /\ Known_unreadable_version version parse_version t).
+Print Assumptions C12_parsed_text.
+
+(* The well-formed fields of C10 (Policy 7.1 grammar, any white space, epochs, qualifiers,
+   architecture lists, profiles): read without error, and the typed view is the field AS WRITTEN —
+   names, operators, and the versions debversion reads from the written version texts. *)
+Theorem C12_parsed_wellformed :
+  forall (allow : bool) (f : RelGrammar.rfield), RelGrammar.wf_rfield allow f = true ->
+  parse_relaxed (RelGrammar.rrender f) allow = Ok (RelGrammar.rtree_of f, 0) /\
+  (allow = false -> relations_from_str (RelGrammar.rrender f) = Ok (RelGrammar.rtree_of f)) /\
+  tree_field version parse_version (RelGrammar.rtree_of f) =
+    Ok (map (map (fun x => mk_rel (RelGrammar.x_name x)
+                             (match RelGrammar.x_ver x with
+                              | Some (o, s) => option_map (fun v => (sat_op o, v)) (parse_version s)
+                              | None => None
+                              end)))
+            (fst (RelGrammar.rcontent f))).
+Proof. exact wellformed_view. Qed.
+Check C12_parsed_wellformed :
+  forall (allow : bool) (f : RelGrammar.rfield), RelGrammar.wf_rfield allow f = true ->
+  parse_relaxed (RelGrammar.rrender f) allow = Ok (RelGrammar.rtree_of f, 0) /\
+  (allow = false -> relations_from_str (RelGrammar.rrender f) = Ok (RelGrammar.rtree_of f)) /\
+  tree_field version parse_version (RelGrammar.rtree_of f) =
+    Ok (map (map (fun x => mk_rel (RelGrammar.x_name x)
+                             (match RelGrammar.x_ver x with
+                              | Some (o, s) => option_map (fun v => (sat_op o, v)) (parse_version s)
+                              | None => None
+                              end)))
+            (fst (RelGrammar.rcontent f))).
+Print Assumptions C12_parsed_wellformed.
 
 (* ================================================================== (B) the Debian ordering *)
 Theorem C12_version_order_total_preorder :
@@ -281,87 +356,116 @@ Check C12_version_print_read :
 Print Assumptions C12_version_print_read.
 
 (* ... so C12_constructed and C12_set_version apply to every field whose versions were read from
-   text: this is how versions with an epoch reach the lossless evaluator. *)
+   text (this is also how versions reach the lossless evaluator without going through the
+   reader), the package names being any non-empty [A-Za-z0-9.+~-]+ for the parsed start. *)
 Theorem C12_debian_constructed :
   forall f : list (list (rel version)),
   Forall (Forall (fun r => match r_ver r with
                            | Some (_, v) => exists text, parse_version text = Some v
                            | None => True end)) f ->
-  (exists t, deb_build_field f = Ok t /\ tree_field version parse_version t = Ok f) /\
-  (exists t, deb_sv_field f = Ok t /\ tree_field version parse_version t = Ok f).
-Proof. exact deb_constructed. Qed.
+  tree_field version parse_version (deb_build_field f) = Ok f /\
+  (Forall (Forall (fun r => RelGrammar.ident_ok (r_name r) = true)) f ->
+   exists t, deb_sv_field f = Ok t /\ tree_field version parse_version t = Ok f).
+Proof. 
+  intros f H. destruct (deb_constructed f H) as [H1 H2]. split; [exact H1|].
+  intros Hn. apply H2. apply names_start_ok. exact Hn.
+ Qed.
 Check C12_debian_constructed :
   forall f : list (list (rel version)),
   Forall (Forall (fun r => match r_ver r with
                            | Some (_, v) => exists text, parse_version text = Some v
                            | None => True end)) f ->
-  (exists t, deb_build_field f = Ok t /\ tree_field version parse_version t = Ok f) /\
-  (exists t, deb_sv_field f = Ok t /\ tree_field version parse_version t = Ok f).
+  tree_field version parse_version (deb_build_field f) = Ok f /\
+  (Forall (Forall (fun r => RelGrammar.ident_ok (r_name r) = true)) f ->
+   exists t, deb_sv_field f = Ok t /\ tree_field version parse_version t = Ok f).
 Print Assumptions C12_debian_constructed.
 
 (* hence, for the code as linked: *)
 Theorem C12_debian :
-  forall (t : rtree) (f : list (list (rel version))) (pv : lookup version),
+  forall (t : rtree) (f : list (list (rel version))) (g : str -> option version),
   tree_field version parse_version t = Ok f ->
   field_dom version (fun v => ver_safe v = true) f ->
-  lookup_dom version (fun v => ver_safe v = true) pv ->
-  deb_ll_sat t pv = Ok (deb_spec (lookup_version pv) f) /\
-  deb_lossy_sat f pv = Ok (deb_spec (lookup_version pv) f).
+  (forall n v, g n = Some v -> ver_safe v = true) ->
+  deb_ll_sat t g = Ok (deb_spec g f) /\
+  deb_lossy_sat f g = Ok (deb_spec g f).
 Proof. exact deb_sat_spec. Qed.
 Check C12_debian :
-  forall (t : rtree) (f : list (list (rel version))) (pv : lookup version),
+  forall (t : rtree) (f : list (list (rel version))) (g : str -> option version),
   tree_field version parse_version t = Ok f ->
   field_dom version (fun v => ver_safe v = true) f ->
-  lookup_dom version (fun v => ver_safe v = true) pv ->
-  deb_ll_sat t pv = Ok (deb_spec (lookup_version pv) f) /\
-  deb_lossy_sat f pv = Ok (deb_spec (lookup_version pv) f).
+  (forall n v, g n = Some v -> ver_safe v = true) ->
+  deb_ll_sat t g = Ok (deb_spec g f) /\
+  deb_lossy_sat f g = Ok (deb_spec g f).
 Print Assumptions C12_debian.
 
-(* SUMMARY — one field, one assignment of installed versions: the lossless evaluator (on the tree
-   built by the constructors and on the tree built through set_version), the lossy evaluator, and
-   the closure / map / pair lookup forms all return Ok of the same answer, the decision table
-   under the Debian ordering.  This is what one record of the `sat` stream shows (lc, sv, yc, ym, yp). *)
+(* ... and for every text the reader accepts without error, outside the two finding classes: the
+   evaluators answer (no panic) with the decision table of what the accessors report *)
+Theorem C12_parsed_text_debian :
+  forall (s : str) (allow : bool) (t : rtree), parse_relaxed s allow = Ok (t, 0) ->
+  ~ Known_nonstandard_operator t -> ~ Known_unreadable_version version parse_version t ->
+  exists a F, RelAcc.racc t = Ok a /\ F = typed_content (fst a) /\
+    tree_field version parse_version t = Ok F /\
+    forall g, field_dom version (fun v => ver_safe v = true) F -> (forall n v, g n = Some v -> ver_safe v = true) ->
+      deb_ll_sat t g = Ok (deb_spec g F) /\ deb_lossy_sat F g = Ok (deb_spec g F).
+Proof. exact parsed_text_sat. Qed.
+Check C12_parsed_text_debian :
+  forall (s : str) (allow : bool) (t : rtree), parse_relaxed s allow = Ok (t, 0) ->
+  ~ Known_nonstandard_operator t -> ~ Known_unreadable_version version parse_version t ->
+  exists a F, RelAcc.racc t = Ok a /\ F = typed_content (fst a) /\
+    tree_field version parse_version t = Ok F /\
+    forall g, field_dom version (fun v => ver_safe v = true) F -> (forall n v, g n = Some v -> ver_safe v = true) ->
+      deb_ll_sat t g = Ok (deb_spec g F) /\ deb_lossy_sat F g = Ok (deb_spec g F).
+Print Assumptions C12_parsed_text_debian.
+
+(* SUMMARY — one field, one assignment of installed versions.  With the closure "last binding
+   wins": the lossless evaluator on the tree built by the constructors and on the tree built through
+   set_version, and the lossy evaluator, return Ok of the decision table under the Debian ordering.
+   With the map and with the pair (which only lossy::Relation::satisfied_by accepts): the same
+   answer through the alternative-by-alternative nesting.  This is what one record of the `sat`
+   stream shows (lc, sv, yc, ym, yp). *)
 Theorem C12_main :
   forall (f : list (list (rel version))) (asg : list (str * version)),
   Forall (Forall (fun r => match r_ver r with
                            | Some (_, v) => ver_safe v = true /\ exists text, parse_version text = Some v
                            | None => True end)) f ->
   Forall (fun kv => ver_safe (snd kv) = true) asg ->
+  Forall (Forall (fun r => RelGrammar.ident_ok (r_name r) = true)) f ->
   let installed := find_last asg in
   let answer := deb_spec installed f in
-  exists t_new t_set,
-    deb_build_field f = Ok t_new /\ deb_sv_field f = Ok t_set /\
-    deb_ll_sat t_new (LFn installed) = Ok answer /\ deb_ll_sat t_new (LMap (hm_of_list asg)) = Ok answer /\
-    deb_ll_sat t_set (LFn installed) = Ok answer /\ deb_ll_sat t_set (LMap (hm_of_list asg)) = Ok answer /\
-    deb_lossy_sat f (LFn installed) = Ok answer /\ deb_lossy_sat f (LMap (hm_of_list asg)) = Ok answer /\
-    (forall n v, asg = [(n, v)] ->
-       deb_ll_sat t_new (LPair n v) = Ok answer /\ deb_ll_sat t_set (LPair n v) = Ok answer /\
-       deb_lossy_sat f (LPair n v) = Ok answer).
-Proof. exact deb_main. Qed.
+  exists t_set,
+    deb_sv_field f = Ok t_set /\
+    deb_ll_sat (deb_build_field f) installed = Ok answer /\
+    deb_ll_sat t_set installed = Ok answer /\
+    deb_lossy_sat f installed = Ok answer /\
+    deb_by_relation f (LFn installed) = Ok answer /\
+    deb_by_relation f (LMap (hm_of_list asg)) = Ok answer /\
+    (forall n v, asg = [(n, v)] -> deb_by_relation f (LPair n v) = Ok answer).
+Proof. exact deb_main_names. Qed.
 Check C12_main :
   forall (f : list (list (rel version))) (asg : list (str * version)),
   Forall (Forall (fun r => match r_ver r with
                            | Some (_, v) => ver_safe v = true /\ exists text, parse_version text = Some v
                            | None => True end)) f ->
   Forall (fun kv => ver_safe (snd kv) = true) asg ->
+  Forall (Forall (fun r => RelGrammar.ident_ok (r_name r) = true)) f ->
   let installed := find_last asg in
   let answer := deb_spec installed f in
-  exists t_new t_set,
-    deb_build_field f = Ok t_new /\ deb_sv_field f = Ok t_set /\
-    deb_ll_sat t_new (LFn installed) = Ok answer /\ deb_ll_sat t_new (LMap (hm_of_list asg)) = Ok answer /\
-    deb_ll_sat t_set (LFn installed) = Ok answer /\ deb_ll_sat t_set (LMap (hm_of_list asg)) = Ok answer /\
-    deb_lossy_sat f (LFn installed) = Ok answer /\ deb_lossy_sat f (LMap (hm_of_list asg)) = Ok answer /\
-    (forall n v, asg = [(n, v)] ->
-       deb_ll_sat t_new (LPair n v) = Ok answer /\ deb_ll_sat t_set (LPair n v) = Ok answer /\
-       deb_lossy_sat f (LPair n v) = Ok answer).
+  exists t_set,
+    deb_sv_field f = Ok t_set /\
+    deb_ll_sat (deb_build_field f) installed = Ok answer /\
+    deb_ll_sat t_set installed = Ok answer /\
+    deb_lossy_sat f installed = Ok answer /\
+    deb_by_relation f (LFn installed) = Ok answer /\
+    deb_by_relation f (LMap (hm_of_list asg)) = Ok answer /\
+    (forall n v, asg = [(n, v)] -> deb_by_relation f (LPair n v) = Ok answer).
 Print Assumptions C12_main.
 
 (* The statement without the digit-run guard, kept visible: it is FALSE for the linked crate. *)
 Definition C12_full : Prop :=
-  forall (t : rtree) (f : list (list (rel version))) (pv : lookup version),
+  forall (t : rtree) (f : list (list (rel version))) (g : str -> option version),
   tree_field version parse_version t = Ok f ->
-  deb_ll_sat t pv = Ok (deb_spec (lookup_version pv) f) /\
-  deb_lossy_sat f pv = Ok (deb_spec (lookup_version pv) f).
+  deb_ll_sat t g = Ok (deb_spec g f) /\
+  deb_lossy_sat f g = Ok (deb_spec g f).
 
 (* finding c12-debversion-i32-digit-run: `a (>= 0~2024)` with a = 0~20240101123456 installed *)
 Theorem C12_full_refuted : ~ C12_full.
@@ -371,19 +475,21 @@ Print Assumptions C12_full_refuted.
 
 Theorem C12_i32_class_witness :
   let f := [[mk_rel (s2l "a") (Some (OpGe, mk_version None (s2l "0~2024") None))]] in
-  let pv := LPair (s2l "a") big_version in
+  let g := fun n => if str_eqb n (s2l "a") then Some big_version else None in
   ver_safe big_version = false /\
   parse_version (s2l "0~20240101123456") = Some big_version /\
-  deb_lossy_sat f pv = Panic 2%N /\
-  deb_spec (lookup_version pv) f = true.
+  deb_lossy_sat f g = Panic 2%N /\
+  deb_by_relation f (LPair (s2l "a") big_version) = Panic 2%N /\
+  deb_spec g f = true.
 Proof. exact deb_i32_witness. Qed.
 Check C12_i32_class_witness :
   let f := [[mk_rel (s2l "a") (Some (OpGe, mk_version None (s2l "0~2024") None))]] in
-  let pv := LPair (s2l "a") big_version in
+  let g := fun n => if str_eqb n (s2l "a") then Some big_version else None in
   ver_safe big_version = false /\
   parse_version (s2l "0~20240101123456") = Some big_version /\
-  deb_lossy_sat f pv = Panic 2%N /\
-  deb_spec (lookup_version pv) f = true.
+  deb_lossy_sat f g = Panic 2%N /\
+  deb_by_relation f (LPair (s2l "a") big_version) = Panic 2%N /\
+  deb_spec g f = true.
 Print Assumptions C12_i32_class_witness.
 
 (* finding c12-nonstandard-operator: the strict reader accepts `a (> 1)`; every alternative has
@@ -392,32 +498,55 @@ Theorem C12_nonstandard_operator_class_witness :
   let s := s2l "a (> 1)" in
   exists t, relations_from_str s = Ok t /\
             Known_nonstandard_operator t /\
-            names_present t /\ versions_readable version parse_version t /\
-            deb_ll_sat t (LFn (fun _ => parse_version (s2l "2"))) = Panic 11%N.
+            names_present t /\ ~ Known_unreadable_version version parse_version t /\
+            deb_ll_sat t (fun _ => parse_version (s2l "2")) = Panic 11%N.
 Proof. exact deb_nonstandard_operator_witness. Qed.
 Check C12_nonstandard_operator_class_witness :
   let s := s2l "a (> 1)" in
   exists t, relations_from_str s = Ok t /\
             Known_nonstandard_operator t /\
-            names_present t /\ versions_readable version parse_version t /\
-            deb_ll_sat t (LFn (fun _ => parse_version (s2l "2"))) = Panic 11%N.
+            names_present t /\ ~ Known_unreadable_version version parse_version t /\
+            deb_ll_sat t (fun _ => parse_version (s2l "2")) = Panic 11%N.
 Print Assumptions C12_nonstandard_operator_class_witness.
+
+(* finding c12-unreadable-version-epoch: since /repo 0eb8794 the strict reader accepts any run of
+   IDENT and ":" tokens as a version, `a (>= 4294967296:1)` included; debversion's FromStr rejects
+   an epoch above u32::MAX (4294967295:1 is fine) and Relation::version() unwraps that error *)
+Theorem C12_unreadable_version_class_witness :
+  let s := s2l "a (>= 4294967296:1)" in
+  exists t, relations_from_str s = Ok t /\
+            Known_unreadable_version version parse_version t /\
+            names_present t /\ ~ Known_nonstandard_operator t /\
+            deb_ll_sat t (fun _ => parse_version (s2l "2")) = Panic 12%N /\
+            parse_version (s2l "4294967296:1") = None /\ parse_version (s2l "4294967295:1") <> None.
+Proof. exact deb_unreadable_version_witness. Qed.
+Check C12_unreadable_version_class_witness :
+  let s := s2l "a (>= 4294967296:1)" in
+  exists t, relations_from_str s = Ok t /\
+            Known_unreadable_version version parse_version t /\
+            names_present t /\ ~ Known_nonstandard_operator t /\
+            deb_ll_sat t (fun _ => parse_version (s2l "2")) = Panic 12%N /\
+            parse_version (s2l "4294967296:1") = None /\ parse_version (s2l "4294967295:1") <> None.
+Print Assumptions C12_unreadable_version_class_witness.
 
 (* ================================================================== non-vacuity *)
 Definition pv_of (l : list (string * string)) : option (list (str * version)) :=
   deb_type_assignment (map (fun kv => (s2l (fst kv), s2l (snd kv))) l).
 
-(* a parsed field: three entries, alternatives, four operators, '~' and a revision; its typed
-   view exists, is in the safe domain, and both evaluators answer true / false as they should *)
+(* a parsed field: four entries, alternatives, four operators, '~', an epoch and a revision; its
+   typed view exists, is in the safe domain, and the evaluators answer true / false as they should:
+   the crate's evaluators with the closure, the map through the alternative-by-alternative nesting *)
 Example C12_ex_parsed :
-  let s := s2l "libc6 (>= 2.4~rc1-1), python3 (<< 3.12) | pypy3 (= 7.3.11+dfsg-2), foo, bar (<= 1.0-1) | baz (>> 2)" in
+  let s := s2l "libc6 (>= 2.4~rc1-1), python3 (<< 1:3.12) | pypy3 (= 7.3.11+dfsg-2), foo, bar (<= 1.0-1) | baz (>> 2)" in
   exists t f a1 a2,
     relations_from_str s = Ok t /\ tree_field version parse_version t = Ok f /\ List.length f = 4 /\
     Forall (Forall (rel_dom version (fun v => ver_safe v = true))) f /\
     pv_of [("libc6", "2.4-1"); ("pypy3", "7.3.11+dfsg-2"); ("foo", "0"); ("baz", "1:0.1")]%string = Some a1 /\
-    pv_of [("libc6", "2.4~rc1-1"); ("python3", "3.12"); ("foo", "0"); ("baz", "2")]%string = Some a2 /\
-    deb_ll_sat t (LMap (hm_of_list a1)) = Ok true /\ deb_lossy_sat f (LFn (find_last a1)) = Ok true /\
-    deb_ll_sat t (LMap (hm_of_list a2)) = Ok false /\ deb_lossy_sat f (LFn (find_last a2)) = Ok false.
+    pv_of [("libc6", "2.4~rc1-1"); ("python3", "1:3.12"); ("foo", "0"); ("baz", "2")]%string = Some a2 /\
+    deb_ll_sat t (find_last a1) = Ok true /\ deb_lossy_sat f (find_last a1) = Ok true /\
+    deb_by_relation f (LMap (hm_of_list a1)) = Ok true /\
+    deb_ll_sat t (find_last a2) = Ok false /\ deb_lossy_sat f (find_last a2) = Ok false /\
+    deb_by_relation f (LMap (hm_of_list a2)) = Ok false.
 Proof.
   cbv zeta. eexists _, _, _, _.
   split; [vm_compute; reflexivity|]. split; [vm_compute; reflexivity|]. split; [reflexivity|].
@@ -441,12 +570,13 @@ Example C12_ex_main_hypotheses :
                              | Some (_, v) => ver_safe v = true /\ exists text, parse_version text = Some v
                              | None => True end)) f /\
     Forall (fun kv => ver_safe (snd kv) = true) asg /\
+    Forall (Forall (fun r => RelGrammar.ident_ok (r_name r) = true)) f /\
     deb_spec (find_last asg) f = false /\
     deb_spec (find_last (asg ++ [(s2l "e", v4)])) f = true.
 Proof.
   eexists _, _, _, _, _, _, _.
   do 7 (split; [vm_compute; reflexivity|]). cbv zeta.
-  split; [|split; [|split]].
+  split; [|split; [|split; [|split]]].
   - repeat apply Forall_cons; try apply Forall_nil; cbn [r_ver]; try exact I;
       (split; [vm_compute; reflexivity|]).
     + exists (s2l "1:2.0~rc1-3"). vm_compute. reflexivity.
@@ -455,36 +585,47 @@ Proof.
     + exists (s2l "0:1.00-01"). vm_compute. reflexivity.
     + exists (s2l "1.0-1"). vm_compute. reflexivity.
   - repeat apply Forall_cons; try apply Forall_nil; vm_compute; reflexivity.
+  - repeat apply Forall_cons; try apply Forall_nil; vm_compute; reflexivity.
   - vm_compute. reflexivity.
   - vm_compute. reflexivity.
 Qed.
 
-(* epochs reach the lossless evaluator through the constructors; the versions survive
-   print-then-read, so C12_constructed applies *)
+(* the constructors: "|" is a PIPE token; the versions survive print-then-read, so
+   C12_constructed applies *)
 Example C12_ex_constructed :
-  exists w1 w2 v1 t,
+  exists w1 w2 v1,
     parse_version (s2l "1:2.0-3") = Some w1 /\ parse_version (s2l "0:1.0~~") = Some w2 /\
     parse_version (s2l "1:2.0-3+b1") = Some v1 /\
     let f := [[mk_rel (s2l "a") (Some (OpGe, w1)); mk_rel (s2l "b") None]; [mk_rel (s2l "c") (Some (OpLt, w2))]] in
+    let t := deb_build_field f in
     Forall (Forall (fun r => match r_ver r with Some (_, v) => parse_version (show_version v) = Some v | None => True end)) f /\
-    build_field version show_version f = Ok t /\
     text t = s2l "a (>= 1:2.0-3) | b, c (<< 0:1.0~~)" /\
-    deb_ll_sat t (LPair (s2l "a") v1) = Ok false /\
-    deb_ll_sat t (LFn (fun n => if str_eqb n (s2l "c") then parse_version (s2l "1.0~~~") else Some v1)) = Ok true.
+    (exists e pre post, children t = e :: pre /\ children e = post /\ In (Tok PIPE (s2l "|")) post /\ ~ In (Tok COMMA (s2l "|")) post) /\
+    deb_ll_sat t (fun n => if str_eqb n (s2l "a") then Some v1 else None) = Ok false /\
+    deb_ll_sat t (fun n => if str_eqb n (s2l "c") then parse_version (s2l "1.0~~~") else Some v1) = Ok true.
 Proof.
-  eexists _, _, _, _. split; [vm_compute; reflexivity|]. split; [vm_compute; reflexivity|].
+  eexists _, _, _. split; [vm_compute; reflexivity|]. split; [vm_compute; reflexivity|].
   split; [vm_compute; reflexivity|]. cbv zeta.
   split; [repeat constructor|]. split; [vm_compute; reflexivity|].
-  repeat split; vm_compute; reflexivity.
+  split.
+  - vm_compute. eexists _, _, _. split; [reflexivity|]. split; [reflexivity|]. split.
+    + right. right. left. reflexivity.
+    + intros H. repeat (destruct H as [H|H]; [discriminate H|]). exact H.
+  - split; vm_compute; reflexivity.
 Qed.
 
-(* set_version (fixed): both paths (insert after the name, replace an existing constraint) *)
+(* set_version, the four starts of the harness: insert after the name, replace an existing
+   constraint, insert after a qualifier set by set_archqual, and after the qualifier of a parsed
+   relation (before its architecture list) *)
 Example C12_ex_set_version :
   exists one two t,
     parse_version (s2l "1") = Some one /\ parse_version (s2l "2~") = Some two /\
-    deb_sv_field [[mk_rel (s2l "a") (Some (OpGt, one)); mk_rel (s2l "b") (Some (OpLt, two))]] = Ok t /\
-    text t = s2l "a (>> 1) | b (<< 2~)" /\
-    deb_ll_sat t (LPair (s2l "a") two) = Ok true /\ deb_ll_sat t (LPair (s2l "b") two) = Ok false.
+    deb_sv_field [[mk_rel (s2l "a") (Some (OpGt, one)); mk_rel (s2l "b") (Some (OpLt, two));
+                   mk_rel (s2l "c") (Some (OpGe, one)); mk_rel (s2l "d") (Some (OpEq, two))]] = Ok t /\
+    text t = s2l "a (>> 1) | b (<< 2~) | c:any (>= 1) | d:any (= 2~) [amd64] <!nocheck>" /\
+    deb_ll_sat t (fun n => if str_eqb n (s2l "a") then Some two else None) = Ok true /\
+    deb_ll_sat t (fun n => if str_eqb n (s2l "b") then Some two else None) = Ok false /\
+    deb_ll_sat t (fun n => if str_eqb n (s2l "d") then Some two else None) = Ok true.
 Proof.
   eexists _, _, _. split; [vm_compute; reflexivity|]. split; [vm_compute; reflexivity|].
   split; [vm_compute; reflexivity|]. repeat split; vm_compute; reflexivity.
@@ -495,11 +636,27 @@ Qed.
 Example C12_ex_short_circuit :
   exists t one,
     relations_from_str (s2l "b | a (> 1)") = Ok t /\ parse_version (s2l "1") = Some one /\
-    deb_ll_sat t (LPair (s2l "b") one) = Ok true /\
-    deb_ll_sat t (LPair (s2l "a") one) = Panic 11%N.
+    deb_ll_sat t (fun n => if str_eqb n (s2l "b") then Some one else None) = Ok true /\
+    deb_ll_sat t (fun n => if str_eqb n (s2l "a") then Some one else None) = Panic 11%N.
 Proof.
   eexists _, _. split; [vm_compute; reflexivity|]. split; [vm_compute; reflexivity|].
   split; vm_compute; reflexivity.
+Qed.
+
+(* a well-formed field in the sense of C10 with free white space and an epoch: C12_parsed_wellformed
+   applies, and the typed view has the version debversion reads from "1:2.0" *)
+Example C12_ex_wellformed :
+  exists f v, RelGrammar.wf_rfield false f = true /\
+    RelGrammar.rrender f = s2l " a  (>=  1:2.0 ) , b" /\
+    parse_version (s2l "1:2.0") = Some v /\
+    tree_field version parse_version (RelGrammar.rtree_of f) = Ok [[mk_rel (s2l "a") (Some (OpGe, v))]; [mk_rel (s2l "b") None]].
+Proof.
+  exists (RelGrammar.mk_rfield [32%N]
+            (RelGrammar.IEntry (RelGrammar.mk_rel (s2l "a") None
+               (Some (RelGrammar.mk_vclause [32; 32]%N [] RelAcc.VGe [32; 32]%N (Some (s2l "1")) (s2l "2.0") [] [32%N])) None [] [32%N]) [])
+            [([32%N], RelGrammar.IEntry (RelGrammar.mk_rel (s2l "b") None None None [] []) [])]).
+  eexists. split; [vm_compute; reflexivity|]. split; [vm_compute; reflexivity|].
+  split; [vm_compute; reflexivity|]. vm_compute. reflexivity.
 Qed.
 
 (* the ordering on the textbook cases *)
